@@ -666,11 +666,15 @@ func VerifC07CleanDeep() {
 	c07Clean(c07StartP{base: c07Wide(), nClosed: 2, nRes: 2, failUpTo: 1})
 }
 func VerifC07CleanWide() {
-	c07Clean(c07StartP{base: c07Deep(), nClosed: 1, nRes: 1, failUpTo: 1})
+	b := c07Quick()
+	b.nPre = 3
+	c07Clean(c07StartP{base: b, nClosed: 1, nRes: 1, failUpTo: 1})
 }
 func VerifC07StartupDeep() {
 	c07Clean(c07StartP{base: c07Quick(), nClosed: 1, nRes: 1, minOpen: 1, nOpenCh: 1, failUpTo: 0})
 }
 func VerifC07TrimAllDeep() {
-	c07TrimAll(c07StartP{base: c07Deep(), nOpenCh: 2})
+	b := c07Quick()
+	b.nPre = 3
+	c07TrimAll(c07StartP{base: b, nOpenCh: 2})
 }
